@@ -520,7 +520,7 @@ def step (m : MState) (e : TEv) : MState :=
           else w
         | none => w
       -- C08: outside a stop call, leadership ⇔ promotions outnumber demotions by one
-      let w := if x.stopsInProgress = 0 ∧ x.everStarted ∧ x.cfg.id ≠ 0 then
+      let w := if x.stopsInProgress = 0 ∧ x.everStarted ∧ x.cfg.callbacks then
                  checkW w (il2 = decide (x.promotes = x.demotes + 1) ∨ x.promotes = 0 ∧ x.demotes = 0 ∧ ¬ il2 ∨ x.stoppedSince.isSome ∧ ¬ il2 ∧ x.promotes ≤ x.demotes + 1)
                    "C08" "callbacks-do-not-mirror-leadership" s!"instance {i}: IsLeader={il2} promotions={x.promotes} demotions={x.demotes}"
                else w
